@@ -190,6 +190,8 @@ def mk_probes(tier, only=None):
         P += alloca_probes(fn, full)
     if want("zero"):
         P += zero_probes(fn, full)
+    if want("vla"):
+        P += vla_probes(fn, full)
     return P
 
 
@@ -399,6 +401,36 @@ def alloca_probes_all(fn):
     f = fn()
     P.append(AllocaProbe("alloca/vla-block", f, "void sink_%s(void *, void *);\nvoid %s(long n) { long loc = 1; char a[n]; sink_%s(a, &loc); }\n" % (f, f, f),
                          "block", {"sink_" + f: "int"}))
+    return P
+
+
+def vla_probes(fn, full):
+    """pointer arithmetic on pointers to variable-length array rows: the element size is the run-time row size.
+    The row length is a run-time value that is concrete for the executor (n = 3, 5 or 8 ints), the index k is symbolic."""
+    P = []
+    TRUE_ = z3.BoolVal(True)
+    for n in ((3, 5, 8) if full else (5,)):
+        row = 4 * n
+        decl = "long n = %d; int a[4][n]; " % n
+        forms = [
+            ("ptr-minus-k", decl + "int (*p)[n] = a + 3; return (char *)(p - k) - (char *)a;", lambda k, row=row: 3 * row - row * k),
+            ("array-plus-minus-k", decl + "return (char *)(a + 3 - k) - (char *)a;", lambda k, row=row: 3 * row - row * k),
+            ("ptr-minus-assign", decl + "int (*p)[n] = a + 3; p -= k; return (char *)p - (char *)a;", lambda k, row=row: 3 * row - row * k),
+            ("ptr-plus-assign", decl + "int (*p)[n] = a; p += k; return (char *)p - (char *)a;", lambda k, row=row: row * k),
+            ("ptr-plus-k", decl + "int (*p)[n] = a; return (char *)(p + k) - (char *)a;", lambda k, row=row: row * k),
+            ("k-plus-ptr", decl + "int (*p)[n] = a; return (char *)(k + p) - (char *)a;", lambda k, row=row: row * k),
+            ("index-negative", decl + "int (*p)[n] = a + 1; return (char *)&p[-k] - (char *)a;", lambda k, row=row: row - row * k),
+            ("element", decl + "return (char *)&a[2][k] - (char *)a;", lambda k, row=row: 2 * row + 4 * k),
+            ("decrement", decl + "int (*p)[n] = a + 2; p--; return (char *)p - (char *)a + k * 0;", lambda k, row=row: z3.BitVecVal(row, 64)),
+            ("increment", decl + "int (*p)[n] = a + 2; p++; return (char *)p - (char *)a + k * 0;", lambda k, row=row: z3.BitVecVal(3 * row, 64)),
+            ("difference", decl + "return (a + 3) - (a + 1) + k * 0;", lambda k: z3.BitVecVal(2, 64)),
+            ("difference-negative", decl + "return (a + 1) - (a + 3) + k * 0;", lambda k: z3.BitVecVal(-2, 64)),
+            ("sizeof-row", decl + "return sizeof(a[0]) + sizeof(*a) * 100 + k * 0;", lambda k, row=row: z3.BitVecVal(row * 101, 64)),
+        ]
+        for nm, body, ref in forms:
+            import re
+            body = re.sub(r"\bk\b", "a", re.sub(r"\ba\b", "v", body))       # the probe's parameter is called `a`
+            P.append(e2.ScalarProbe("vla/%s/n%d" % (nm, n), fn(), LONG, [LONG], body, (lambda ref: lambda k: (ref(k), TRUE_))(ref), family="vla", max_visits=64))
     return P
 
 
